@@ -1,9 +1,9 @@
 SPECIFICATION Spec
 CONSTANTS
-  Scenario = "mio8"
-  N = 2
+  Scenario = "nkstream"
+  N = 3
   Cap = 16
-  Kinds <- KindsNone
+  Kinds <- KindsVDV
   GenK = 1
 VIEW View
 INVARIANT Inv_NoLostWake
